@@ -36,6 +36,7 @@ class MDriver(object):
         self.sim = Sim(hold_time=cfg.get('hold', 180), idle_hold_time=cfg.get('idle_hold', 30),
                        connect_retry_time=cfg['connect_retry'], md5=cfg.get('md5'))
         self.sim.reactor.probe = lambda: self.sim.fsm.protocol
+        self.sim.reactor.segments = cfg.get('seg')    # every peer message arrives in that many TCP segments
         # the connectionLost that follows the agent's own loseConnection is delivered by the harness
         # as an event of its own ('io'): Twisted only promises "a later reactor iteration"
         self.sim.reactor.defer_io = cfg.get('defer_io', True)
@@ -322,9 +323,9 @@ def run_shard(spec, seed, col, tier):
         for sig, detail in d.failures:
             col.fail(sig, explicit, detail)
     strat = st.fixed_dictionaries({
-        'cfg': st.sampled_from([{'connect_retry': c, 'hold': h, 'idle_hold': i, 'md5': m}
+        'cfg': st.sampled_from([dict({'connect_retry': c, 'hold': h, 'idle_hold': i, 'md5': m}, **({'seg': s} if s else {}))
                                 for c in (1, 5, 29, 30, 31, 60) for h, i in ((180, 30), (9, 5), (180, 0), (0, 30), (65536, 30))
-                                for m in (None, None, None, 'secret', 'k' * 81)]),
+                                for m in (None, None, None, 'secret', 'k' * 81) for s in (None, None, None, 3)]),
         'late_boot': st.sampled_from([False, False, False, True]),
         'choices': st.lists(st.integers(0, 999), min_size=spec['steps'] // 2, max_size=spec['steps'])})
     hyp_run(col, strat, body, seed, spec['examples'])
